@@ -54,7 +54,12 @@ def corrupt_fmt(wd):
     C.record(rec, universe="gap", single="0/1", pair="0/1", seed_tags="comment,call", widths="0,80", tabs="2",
              parts="tree,flat,lines", passes="true", shards=1)
     evs = [json.loads(l) for l in open(os.path.join(rec, "shard-00.ndjson"))]
-    evs = [e for e in evs if e.get("outcome") == "ok" and not e["oerr"]][:60]
+    evs = [e for e in evs if e.get("outcome") == "ok" and not e["oerr"]]
+    # prefer events with two different comments (needed by the R06 corruption), then fill up
+    def two_cmts(e):
+        c = [x["t"] for x in e["pout"]["lv"] if x["k"] in ("LineComment", "BlockComment")]
+        return len(set(c)) >= 2
+    evs = ([e for e in evs if two_cmts(e)][:30] + [e for e in evs if not two_cmts(e)])[:60]
 
     def first_leaf(t, pred):
         if not t.get("inner"):
@@ -139,10 +144,12 @@ def corrupt_fmt(wd):
 def corrupt_cli(wd):
     binp, _ = C.build_cli()
     scen = []
-    mk = lambda fs, inv: dict(id="st%d" % len(scen), fs0={s: {"cls": fs.get(s, "A"), "ver": 0} for s in SLOTS}, inv=inv)
+    mk = lambda fs, inv: dict(id="st%d" % len(scen), fs0={s: {"cls": fs.get(s, "A"), "ver": 0} for s in SLOTS}, inv=inv,
+                              pred={"exit": -1})
     SLOTS = ["w/a.typ", "w/b.typ", "w/n.txt", "w/.h.typ", "w/s/c.typ", "w/.g/e.typ", "w/x.typ/f.typ", "w/.r/k.typ", "w/.r/s/m.typ"]
     scen.append(mk({"w/a.typ": "U"}, {"kind": "list", "mode": "check", "args": ["w/a.typ"]}))
     scen.append(mk({"w/a.typ": "U", "w/b.typ": "F"}, {"kind": "list", "mode": "inplace", "args": ["w/a.typ", "w/b.typ"]}))
+    scen[-1]["id"] = "st-inplace-3"
     scen.append(mk({"w/a.typ": "U"}, {"kind": "list", "mode": "stdout", "args": ["w/a.typ"]}))
     sp = os.path.join(wd, "scen.ndjson")
     with open(sp, "w") as f:
@@ -173,7 +180,10 @@ def corrupt_cli(wd):
     e = copy.deepcopy(evs[0]); e["sys"].append({"op": "wopen", "path": "w/a.typ", "ok": True})
     expect("WriteOpensAllowed rejects a write-open under --check", len(run([e], ["WriteOpensAllowed"], "cli-wopen")) == 1)
     e = copy.deepcopy(evs[2]); e["fs"]["w/a.typ"] = {"eq": "same", "mtime": False}; e["fs1"] = e["fs"]
-    expect("WriteExactly rejects a missing write-back", len(run([e], ["WriteExactly"], "cli-nowrite")) == 1)
+    if e["fs0"]["w/a.typ"]["cls"] == "U":
+        expect("WriteExactly rejects a missing write-back", len(run([e], ["WriteExactly"], "cli-nowrite")) == 1)
+    else:
+        print("(WriteExactly corruption skipped: the unformatted variant is a fixed point under this scenario's style)")
     e = copy.deepcopy(evs[2]); e["fs"]["w/b.typ"] = {"eq": "same", "mtime": True}; e["fs1"] = e["fs"]
     expect("OnlyWhereAllowed rejects a touched formatted file", len(run([e], ["OnlyWhereAllowed"], "cli-touch")) == 1)
     e = copy.deepcopy(evs[4]); e["stdout"] = e["stdout"][:-1]
